@@ -18,6 +18,7 @@ import OdlModel.Lemmas.DerivAnalytic
 import OdlModel.Lemmas.DerivReal
 import OdlModel.Lemmas.DerivLeaves
 import OdlModel.Lemmas.DerivLeafComp
+import OdlModel.Lemmas.DerivLin
 
 open OdlModel.Deriv OdlModel.Deriv.Impl OdlModel.Deriv.Dual
 
@@ -638,5 +639,24 @@ theorem C06.leaf_comp_central_diff_tendsto [DecidableEq ℝ] (l : Leaf ℝ) (i :
 /-- Non-vacuity: `|(1+2i)·x|` (`ComplexModulus ∘ ComplexEmbedding`) on `ℝ¹` is well formed. -/
 example : compWf (Leaf.cmod 1 : Leaf ℝ) (Impl.cembed 1 1 2 : Impl ℝ) = true := by
   decide
+
+/-- ROUND 5 — linear operators are their own derivative, for the executed point-wise operators
+`PointwiseInner(rn(n)^m, G)`, `PointwiseSum(rn(n)^m)` (driver op `lin`, stream `lin`, compared bit for
+bit at `Float`) and for every operator `derivative` of a norm-type leaf returns
+(`InnerProductOperator`, `ComplexModulusDerivative`): `Operator.derivative(x)` returns the operator
+itself (`Lin.deriv`, by construction of the code: `if self.is_linear: return self`), and that IS the
+derivative: over `ℝ`, `s ↦ op(x + s d)_k` has at `0` the derivative `op(d)_k`, for every base point,
+direction, output entry, number of components and dimension.  (The content is that the executed
+`_call` really is linear — `lin_linear` — so that returning `self` is right.) -/
+theorem C06.lin_is_own_derivative (j : Lin ℝ) (x d : Vec ℝ) (k : Nat) :
+    HasDerivAt (fun s : ℝ => j.run (fun m => x m + s * d m) k) ((j.deriv x).run d k) 0 :=
+  lin_hasDerivAt_line j x d k
+
+/-- Non-vacuity / instance: `PointwiseSum(rn(1)^3)` at `x = (1, 2, 3)`, `d = (1, 1, 1)`: value `6`,
+derivative `3`. -/
+example : (Lin.pwsum 3 1 : Lin ℝ).wf = true ∧
+    (Lin.pwsum 3 1 : Lin ℝ).run (fun j => (j : ℝ) + 1) 0 = 6 ∧
+    ((Lin.pwsum 3 1 : Lin ℝ).deriv (fun j => (j : ℝ) + 1)).run (fun _ => 1) 0 = 3 := by
+  refine ⟨by decide, ?_, ?_⟩ <;> norm_num [Lin.pwsum, Lin.deriv, Lin.run, sumTo]
 
 end leaves
